@@ -5,6 +5,7 @@
   re-extracted from /repo on every run).  `hash256` is an arbitrary function.
 -/
 import Buidl.Proofs.Wire
+import Buidl.Spec.Wire
 namespace Buidl.Props.C19
 open Buidl Buidl.Wire
 
@@ -228,5 +229,169 @@ theorem header_parse_serialize (s : Bytes) (hs : 80 ≤ s.length) :
 
 example : HeaderWF ⟨1, List.replicate 32 0, List.replicate 32 7, 1231006505, [0xff, 0xff, 0, 0x1d], [1, 2, 3, 4]⟩ := by
   unfold HeaderWF; simp
+
+/-! ## fixed-layout messages
+
+Three kinds of class (DESIGN §7 C19): both directions in the library (ping/pong): `parse ∘ serialize`;
+parse-only classes: `parse (Spec.encode m) = m`; serialise-only classes: `Spec.decode (serialize m) = m`.
+`Buidl.Spec.Wire` is written from the protocol documentation, independently of the model. -/
+open Buidl.Spec.Wire
+
+/-- ping / pong: the nonce round-trips (serialize is the identity on the nonce) -/
+theorem pingpong_roundtrip (nonce rest : Bytes) (h : nonce.length = 8) :
+    pingParse (nonce ++ rest) = (nonce, rest) := by
+  simp [pingParse, take_append_len _ _ 8 h, drop_append_len _ _ 8 h]
+
+/-- `headers`: parsing the protocol encoding of any list of 80-byte headers returns exactly them -/
+theorem headers_parse_encode (raw : List Bytes) (rest e : Bytes) (h : ∀ x ∈ raw, x.length = 80)
+    (he : encodeHeaders raw = some e) :
+    headersParse (e ++ rest) = some (raw.map (fun b => (Header.parse b).1), rest) := by
+  simp only [encodeHeaders, Option.pure_def, Option.bind_eq_bind] at he
+  cases hv : encodeVarint raw.length with
+  | none => rw [hv] at he; cases he
+  | some v =>
+    rw [hv] at he; simp only [Option.bind_some, Option.some.injEq] at he; subst he
+    simp only [headersParse, List.append_assoc, readVarint_encodeVarint _ _ _ hv, Option.pure_def,
+      Option.bind_eq_bind, Option.bind_some]
+    exact headersParseLoop_encode raw rest h
+
+/-- `headers`: an entry followed by a non-zero transaction count is refused -/
+theorem headers_rejects_txcount (b rest : Bytes) (c : UInt8) (k : Nat) (hb : b.length = 80)
+    (hc : c ≠ 0) (hc' : c.toNat < 0xFD) :
+    headersParseLoop (k + 1) (b ++ c :: rest) = none := by
+  have hv : readVarint (c :: rest) = some (c.toNat, rest) := by
+    have : c.toNat ≠ 253 ∧ c.toNat ≠ 254 ∧ c.toNat ≠ 255 := by omega
+    simp [readVarint, Gen.varintDecM0, Gen.varintDecM1, Gen.varintDecM2, this.1, this.2.1, this.2.2]
+  have hne : c.toNat ≠ 0 := by
+    intro h; apply hc; exact UInt8.toNat_inj.mp (by simpa using h)
+  simp [headersParseLoop, Header.parse_append _ _ hb, hv, hne]
+
+/-- `cfcheckpt` -/
+theorem cfcheckpt_parse_encode (ft : UInt8) (stop : Bytes) (hs : List Bytes) (rest e : Bytes)
+    (hstop : stop.length = 32) (hh : ∀ x ∈ hs, x.length = 32)
+    (he : encodeCfcheckpt ft stop hs = some e) :
+    cfcheckptParse (e ++ rest) = some ((ft.toNat, stop, hs), rest) := by
+  simp only [encodeCfcheckpt, Option.pure_def, Option.bind_eq_bind] at he
+  cases hv : encodeVarint hs.length with
+  | none => rw [hv] at he; cases he
+  | some v =>
+    rw [hv] at he; simp only [Option.bind_some, Option.some.injEq] at he; subst he
+    have l : stop.reverse.length = 32 := by simp [hstop]
+    simp only [cfcheckptParse, List.cons_append, List.append_assoc, take_append_len _ _ 32 l,
+      drop_append_len _ _ 32 l, readVarint_encodeVarint _ _ _ hv, readN32_flatten hs rest hh,
+      Option.pure_def, Option.bind_eq_bind, Option.bind_some, List.reverse_reverse]
+
+/-- `cfheaders` -/
+theorem cfheaders_parse_encode (ft : UInt8) (stop prev : Bytes) (hs : List Bytes) (rest e : Bytes)
+    (hstop : stop.length = 32) (hprev : prev.length = 32) (hh : ∀ x ∈ hs, x.length = 32)
+    (he : encodeCfheaders ft stop prev hs = some e) :
+    cfheadersParse (e ++ rest) = some ((ft.toNat, stop, prev, hs), rest) := by
+  simp only [encodeCfheaders, Option.pure_def, Option.bind_eq_bind] at he
+  cases hv : encodeVarint hs.length with
+  | none => rw [hv] at he; cases he
+  | some v =>
+    rw [hv] at he; simp only [Option.bind_some, Option.some.injEq] at he; subst he
+    have l : stop.reverse.length = 32 := by simp [hstop]
+    simp only [cfheadersParse, List.cons_append, List.append_assoc, take_append_len _ _ 32 l,
+      drop_append_len _ _ 32 l, take_append_len _ _ 32 hprev, drop_append_len _ _ 32 hprev,
+      readVarint_encodeVarint _ _ _ hv, readN32_flatten hs rest hh,
+      Option.pure_def, Option.bind_eq_bind, Option.bind_some, List.reverse_reverse]
+
+/-- `cfilter` (field level) -/
+theorem cfilter_parse_encode (ft : UInt8) (bh filter : Bytes) (rest e : Bytes)
+    (hbh : bh.length = 32) (hf : filter.length < 2 ^ 63) (he : encodeCfilter ft bh filter = some e) :
+    cfilterParse (e ++ rest) = some ((ft.toNat, bh, filter), rest) := by
+  simp only [encodeCfilter, Option.pure_def, Option.bind_eq_bind] at he
+  cases hv : encodeVarstr filter with
+  | none => rw [hv] at he; cases he
+  | some v =>
+    rw [hv] at he; simp only [Option.bind_some, Option.some.injEq] at he; subst he
+    have l : bh.reverse.length = 32 := by simp [hbh]
+    simp only [cfilterParse, List.cons_append, List.append_assoc, take_append_len _ _ 32 l,
+      drop_append_len _ _ 32 l, readVarstr_encodeVarstr _ _ _ hf hv,
+      Option.pure_def, Option.bind_eq_bind, Option.bind_some, List.reverse_reverse]
+
+/-- `getcfilters` / `getcfheaders`: the documented decoder recovers every field -/
+theorem getcfilters_decode_serialize (ft sh : Nat) (stop e : Bytes) (hstop : stop.length = 32)
+    (he : getCFiltersSerialize ft sh stop = some e) :
+    decodeGetCFilters e = some (ft, sh, stop) := by
+  simp only [getCFiltersSerialize, Option.pure_def, Option.bind_eq_bind] at he
+  cases h1 : natToBE ft 1 with
+  | none => rw [h1] at he; cases he
+  | some a =>
+    cases h2 : natToLE sh 4 with
+    | none => rw [h1, h2] at he; cases he
+    | some b =>
+      rw [h1, h2] at he; simp only [Option.bind_some, Option.some.injEq] at he; subst he
+      obtain ⟨la, va⟩ := be_roundtrip _ _ _ h1
+      obtain ⟨lb, vb⟩ := le_roundtrip _ _ _ h2
+      match a, la with
+      | [x], _ =>
+        have hx : x.toNat = ft := by simpa [beToNat, beToNatAux] using va
+        simp [decodeGetCFilters, lb, hstop, take_append_len _ _ 4 lb, drop_append_len _ _ 4 lb, vb, hx]
+
+/-- `getcfcheckpt` -/
+theorem getcfcheckpt_decode_serialize (ft : Nat) (stop e : Bytes) (hstop : stop.length = 32)
+    (he : getCFCheckptSerialize ft stop = some e) :
+    decodeGetCFCheckpt e = some (ft, stop) := by
+  simp only [getCFCheckptSerialize, Option.pure_def, Option.bind_eq_bind] at he
+  cases h1 : natToBE ft 1 with
+  | none => rw [h1] at he; cases he
+  | some a =>
+    rw [h1] at he; simp only [Option.bind_some, Option.some.injEq] at he; subst he
+    obtain ⟨la, va⟩ := be_roundtrip _ _ _ h1
+    match a, la with
+    | [x], _ =>
+      have hx : x.toNat = ft := by simpa [beToNat, beToNatAux] using va
+      simp [decodeGetCFCheckpt, hstop, hx]
+
+/-- `getheaders` with one locator hash -/
+theorem getheaders_decode_serialize (v n : Nat) (start stop e : Bytes)
+    (hs : start.length = 32) (he' : stop.length = 32)
+    (he : getHeadersSerialize v n start stop = some e) :
+    decodeGetHeaders1 e = some (v, n, start, stop) := by
+  simp only [getHeadersSerialize, Option.pure_def, Option.bind_eq_bind] at he
+  cases h1 : natToLE v 4 with
+  | none => rw [h1] at he; cases he
+  | some a =>
+    cases h2 : encodeVarint n with
+    | none => rw [h1, h2] at he; cases he
+    | some b =>
+      rw [h1, h2] at he; simp only [Option.bind_some, Option.some.injEq] at he; subst he
+      obtain ⟨la, va⟩ := le_roundtrip _ _ _ h1
+      have ls : start.reverse.length = 32 := by simp [hs]
+      simp only [decodeGetHeaders1, List.append_assoc, take_append_len _ _ 4 la, drop_append_len _ _ 4 la, va,
+        readVarint_encodeVarint _ _ _ h2, Option.pure_def, Option.bind_eq_bind, Option.bind_some]
+      simp [hs, he', take_append_len _ _ 32 ls, drop_append_len _ _ 32 ls]
+
+theorem decodeInvItems_invBody (items : List (Nat × Bytes)) (rest : Bytes)
+    (h : ∀ it ∈ items, it.1 < 2 ^ 32 ∧ it.2.length = 32) :
+    decodeInvItems items.length (invBody items ++ rest) = some (items, rest) := by
+  induction items with
+  | nil => rfl
+  | cons x xs ih =>
+    obtain ⟨t, i⟩ := x
+    have hx := h (t, i) (by simp)
+    have hxs : ∀ it ∈ xs, it.1 < 2 ^ 32 ∧ it.2.length = 32 := fun it hit => h it (by simp [hit])
+    have ht : t < 256 ^ 4 := by have := hx.1; omega
+    have l4 := natToLE'_length 4 t
+    have li : i.reverse.length = 32 := by simp [hx.2]
+    have hlen : ¬ (natToLE' 4 t ++ (i.reverse ++ (invBody xs ++ rest))).length < 36 := by
+      simp [hx.2]; omega
+    have hdrop : (natToLE' 4 t ++ (i.reverse ++ (invBody xs ++ rest))).drop 36 = invBody xs ++ rest := by
+      rw [show (36 : Nat) = 4 + 32 from rfl, ← List.drop_drop, drop_append_len _ _ 4 l4, drop_append_len _ _ 32 li]
+    simp only [List.length_cons, invBody, List.append_assoc, decodeInvItems, hlen, if_false, hdrop, ih hxs,
+      take_append_len _ _ 4 l4, drop_append_len _ _ 4 l4, take_append_len _ _ 32 li,
+      leToNat_natToLE'_of_lt ht, List.reverse_reverse]
+
+/-- `getdata`: the documented decoder recovers every (type, identifier) pair -/
+theorem getdata_decode_serialize (items : List (Nat × Bytes)) (e rest : Bytes)
+    (h : ∀ it ∈ items, it.1 < 2 ^ 32 ∧ it.2.length = 32)
+    (he : getDataSerialize items = some e) :
+    decodeGetData (e ++ rest) = some (items, rest) := by
+  obtain ⟨v, hv, rfl⟩ := getDataSerialize_eq items e (fun it hit => (h it hit).1) he
+  simp only [decodeGetData, List.append_assoc, readVarint_encodeVarint _ _ _ hv, Option.pure_def,
+    Option.bind_eq_bind, Option.bind_some]
+  exact decodeInvItems_invBody items rest h
 
 end Buidl.Props.C19
